@@ -26,38 +26,38 @@ import (
 
 // JobRec records one job process.
 type JobRec struct {
-	Pid        int    `json:"pid"`
-	Inc        int    `json:"inc"`   // mrp incarnation that started it
-	Stage      string `json:"stage"` // stage name
-	Node       string `json:"node"`  // path of the call relative to the pipestance, e.g. TOP/SUB/STAGE
-	Fork       string `json:"fork"`  // fork directory name
-	Phase      string `json:"phase"` // split, main, join
-	Chunk      int    `json:"chunk"` // -1 unless main
-	Leaf       string `json:"leaf"`  // split, join, chnkN (without uniquifier)
-	Uniq       string `json:"uniq,omitempty"`
-	Monitor    bool   `json:"monitor"`
-	MetaPath   string `json:"-"`
-	FilesPath  string `json:"-"`
-	RunFile    string `json:"-"`
-	StartSeq   int    `json:"start_seq"`
-	EndSeq     int    `json:"end_seq,omitempty"`
-	ArgsSeq    int    `json:"args_seq,omitempty"`
-	Args       interface{} `json:"args,omitempty"`
-	ChunkDefs  interface{} `json:"chunk_defs,omitempty"`
-	ChunkOuts  interface{} `json:"chunk_outs,omitempty"`
-	Outs       interface{} `json:"outs,omitempty"`
-	Outcome    string `json:"outcome,omitempty"` // complete, failed:<kind>, killed, aborted
-	Fault      string `json:"fault,omitempty"`
-	Stale      bool   `json:"stale,omitempty"` // an attempt which went silent, was given up by mrp, and came back
-	Threads    float64 `json:"threads,omitempty"`
-	MemGB      float64 `json:"mem_gb,omitempty"`
-	JobType    string  `json:"job_type,omitempty"`
-	MissingFiles []string `json:"missing_files,omitempty"`
-	Wrote      []string `json:"-"`
-	proc       *vrt.Proc
-	aborted    bool
-	finishing  bool
-	md         *core.Metadata
+	Pid          int         `json:"pid"`
+	Inc          int         `json:"inc"`   // mrp incarnation that started it
+	Stage        string      `json:"stage"` // stage name
+	Node         string      `json:"node"`  // path of the call relative to the pipestance, e.g. TOP/SUB/STAGE
+	Fork         string      `json:"fork"`  // fork directory name
+	Phase        string      `json:"phase"` // split, main, join
+	Chunk        int         `json:"chunk"` // -1 unless main
+	Leaf         string      `json:"leaf"`  // split, join, chnkN (without uniquifier)
+	Uniq         string      `json:"uniq,omitempty"`
+	Monitor      bool        `json:"monitor"`
+	MetaPath     string      `json:"-"`
+	FilesPath    string      `json:"-"`
+	RunFile      string      `json:"-"`
+	StartSeq     int         `json:"start_seq"`
+	EndSeq       int         `json:"end_seq,omitempty"`
+	ArgsSeq      int         `json:"args_seq,omitempty"`
+	Args         interface{} `json:"args,omitempty"`
+	ChunkDefs    interface{} `json:"chunk_defs,omitempty"`
+	ChunkOuts    interface{} `json:"chunk_outs,omitempty"`
+	Outs         interface{} `json:"outs,omitempty"`
+	Outcome      string      `json:"outcome,omitempty"` // complete, failed:<kind>, killed, aborted
+	Fault        string      `json:"fault,omitempty"`
+	Stale        bool        `json:"stale,omitempty"` // an attempt which went silent, was given up by mrp, and came back
+	Threads      float64     `json:"threads,omitempty"`
+	MemGB        float64     `json:"mem_gb,omitempty"`
+	JobType      string      `json:"job_type,omitempty"`
+	MissingFiles []string    `json:"missing_files,omitempty"`
+	Wrote        []string    `json:"-"`
+	proc         *vrt.Proc
+	aborted      bool
+	finishing    bool
+	md           *core.Metadata
 }
 
 func (j *JobRec) Key() string {
@@ -304,6 +304,24 @@ func (r *Run) jobMain(j *JobRec) int {
 			}
 		}
 		p := path.Join(dir, fname)
+		if r.Cfg.DirOutputs && !linkDir && hash64(r.FCfg.Salt, j.Key(), j.Phase, name, "dirout")%4 == 0 {
+			// the output is a directory with two files in it
+			vos.MkdirAll(p, 0755)
+			j.check()
+			for _, kid := range []string{"x", "y"} {
+				kp := path.Join(p, kid)
+				kc := content + "|" + kid
+				if vos.WriteFile(kp, []byte(kc), 0644) == nil {
+					j.check()
+					j.Wrote = append(j.Wrote, kp)
+					r.noteFile(j, kp, kc)
+					r.Files[kp].InDir = p
+					r.Dirs[p] = append(r.Dirs[p], kp)
+				}
+			}
+			r.Faults["stage-output-is-a-directory"]++
+			return p
+		}
 		if err := vos.WriteFile(p, []byte(content), 0644); err != nil {
 			return p
 		}
